@@ -405,7 +405,12 @@ class SourceHandler:
                 self._params.transaction_seq_num, packet.transaction_seq_num
             )
         # This also covers File Data PDUs and ACK PDUs which acknowledge a Finished PDU.
-        if get_packet_destination(packet) == PacketDestination.DEST_HANDLER:
+        try:
+            packet_destination = get_packet_destination(packet)
+        except ValueError as e:
+            # For example an ACK PDU which acknowledges neither an EOF nor a Finished PDU.
+            raise InvalidPduForSourceHandler(packet) from e
+        if packet_destination == PacketDestination.DEST_HANDLER:
             raise InvalidPduForSourceHandler(packet)
         if self._params.transmission_mode == TransmissionMode.UNACKNOWLEDGED and (
             packet.directive_type in (DirectiveType.KEEP_ALIVE_PDU, DirectiveType.NAK_PDU)
